@@ -461,6 +461,28 @@ func (v *View) instIndex(name string) int {
 	return -1
 }
 
+// startCtxEnded: the application ended the context it had handed to the instance's latest
+// Start before event idx, and no stop call has been made since (the election was told to
+// stop through its context only).
+func (v *View) startCtxEnded(inst string, idx int) bool {
+	ended := false
+	for j, e := range v.Ev {
+		if j >= idx {
+			break
+		}
+		if e.Inst != inst {
+			continue
+		}
+		switch {
+		case e.Kind == "start.ctx.cancelled":
+			ended = true
+		case e.Kind == "api.call" && (e.API == "Stop" || e.API == "StopWithContext"):
+			ended = false
+		}
+	}
+	return ended
+}
+
 // heldAtSeq: a user-code call of the instance was being held by the harness when event idx
 // was recorded (also holds of zero virtual duration: reactions that only take real time).
 func (v *View) heldAtSeq(inst string, idx int) bool {
